@@ -65,7 +65,7 @@ PROPS["C01"] = dict(
                  "is.DebugMode() reflects the process-wide debug mode the gate consults"],
     stages=[
         dict(name="matrix", run="^TestAdmissionMatrix$", quick=1, thorough=1),
-        dict(name="generated", run="^TestAdmissionGenerated$", quick=40000, thorough=1600000, shards=16, timeout_thorough=3000),
+        dict(name="generated", run="^TestAdmissionGenerated$", quick=40000, thorough=8000000, shards=16, timeout_thorough=3000),
     ],
 )
 
@@ -107,8 +107,8 @@ PROPS["C03"] = dict(
     assumptions=["each record carries a unique probe token, counted in the captured streams",
                  "all loggers are at level Always so that every severity except Off is admitted (gating is C01)"],
     stages=[
-        dict(name="histories", run="^TestRoutingHistories$", quick=20000, thorough=800000, shards=16, timeout_thorough=3000),
-        dict(name="child", run="^TestStdFallbackChild$", quick=600, thorough=16000, shards=16, timeout_thorough=3000),
+        dict(name="histories", run="^TestRoutingHistories$", quick=20000, thorough=4000000, shards=16, timeout_thorough=3000),
+        dict(name="child", run="^TestStdFallbackChild$", quick=600, thorough=48000, shards=16, timeout_thorough=3000),
     ],
 )
 
@@ -129,7 +129,7 @@ PROPS["C13"] = dict(
     assumptions=["destinations are computed with the C03 routing model, admission of the diagnostic with the C01 rule"],
     stages=[
         dict(name="exhaustive", run="^TestExhaustiveSchedules$", quick=1, thorough=1, timeout_thorough=3000),
-        dict(name="generated", run="^TestGeneratedFaults$", quick=20000, thorough=800000, shards=16, timeout_thorough=3000),
+        dict(name="generated", run="^TestGeneratedFaults$", quick=20000, thorough=4000000, shards=16, timeout_thorough=3000),
     ],
 )
 
@@ -148,8 +148,8 @@ PROPS["C12"] = dict(
           " The termination flags are set through SetFlags, Add/RemoveFlags, an open SaveFlagsAndMod scope or after its restore function; child scenarios include unregistered negative and huge severities."),
     assumptions=["the child observes the record through an unbuffered os.File write before the process ends"],
     stages=[
-        dict(name="child", run="^TestChildSampled$", quick=700, thorough=8000, shards=16, timeout_thorough=3000),
-        dict(name="inprocess", run="^TestInProcess$", quick=20000, thorough=400000, shards=16, timeout_thorough=3000),
+        dict(name="child", run="^TestChildSampled$", quick=700, thorough=32000, shards=16, timeout_thorough=3000),
+        dict(name="inprocess", run="^TestInProcess$", quick=20000, thorough=2400000, shards=16, timeout_thorough=3000),
         dict(name="matrix", run="^TestChildMatrix$", tier="thorough", thorough=16, shards=16, timeout_thorough=3000),
     ],
 )
@@ -208,7 +208,7 @@ PROPS["C07"] = dict(
           "attributes; distinct = (format, flag, context mode, class set, chain depth, number of source attributes)."
           " A quarter of the scenarios give one shared Attrs value (spare capacity) to every logger through SetAttrs1; half emit a second record after attributes were added to a drawn logger of the chain, with another call list."),
     assumptions=["merge order stated in the property: context < ancestors (outermost first) < own < call"],
-    stages=[dict(name="assembly", run="^TestAssembly$", quick=25000, thorough=1000000, shards=16, timeout_thorough=3000)],
+    stages=[dict(name="assembly", run="^TestAssembly$", quick=25000, thorough=4000000, shards=16, timeout_thorough=3000)],
 )
 
 PROPS["C06"] = dict(
@@ -250,8 +250,8 @@ PROPS["C09"] = dict(
           "colored record of another severity; distinct = (format, severity, named, caller, class set, lengths of both histories)."
           " Attribute keys include the reserved field names (time often holding a time.Time); the caller file may lie under two path mappings; the probe destination may be re-entrant (logs through another logger inside Write, for emissions 2 and 4). Second test: two levels registered identically must print identically whether or not one was logged while unregistered."),
     assumptions=["attributes are rebuilt from the same description for every emission (the encoder sorts argument slices in place)"],
-    stages=[dict(name="history", run="^TestHistoryIndependence$", quick=8000, thorough=400000, shards=16, timeout_thorough=3000),
-            dict(name="registration", run="^TestRegistrationHistory$", quick=2000, thorough=100000, shards=8, timeout_thorough=3000),
+    stages=[dict(name="history", run="^TestHistoryIndependence$", quick=8000, thorough=1200000, shards=16, timeout_thorough=3000),
+            dict(name="registration", run="^TestRegistrationHistory$", quick=2000, thorough=400000, shards=8, timeout_thorough=3000),
             dict(name="crossprocess", run="^TestCrossProcess$", quick=1, thorough=1, timeout_thorough=3000)],
 )
 
@@ -270,7 +270,7 @@ PROPS["C11"] = dict(
     assumptions=[],
     stages=[
         dict(name="enumerated", run="^TestEnumeratedHistories$", quick=1, thorough=1, timeout_thorough=3000),
-        dict(name="generated", run="^TestGeneratedHistories$", quick=8000, thorough=400000, shards=16, timeout_thorough=3000),
+        dict(name="generated", run="^TestGeneratedHistories$", quick=8000, thorough=1600000, shards=16, timeout_thorough=3000),
     ],
 )
 
@@ -288,7 +288,7 @@ PROPS["C16"] = dict(
           "local-time flag, UTC mode, layout, zone kind, millennium)."
           " Flags are set through SetFlags, Reset+Add/Remove, inside a SaveFlagsAndMod scope or after its restore function (a record is emitted under the other flag set first); special instants (time.Time{}, Unix epoch, year 9999) are mixed in."),
     assumptions=["time/tzdata embedded in the harness binary provides the named zones"],
-    stages=[dict(name="timestamps", run="^TestTimestamps$", quick=40000, thorough=1600000, shards=16, timeout_thorough=3000)],
+    stages=[dict(name="timestamps", run="^TestTimestamps$", quick=40000, thorough=12000000, shards=16, timeout_thorough=3000)],
 )
 
 PROPS["C17"] = dict(
@@ -307,7 +307,7 @@ PROPS["C17"] = dict(
     assumptions=["gating and routing oracles are those of C01 and C03"],
     stages=[
         dict(name="builtins", run="^TestBuiltinRoundTrips$", quick=1, thorough=1),
-        dict(name="histories", run="^TestRegistryHistories$", quick=6000, thorough=300000, shards=16, timeout_thorough=3000),
+        dict(name="histories", run="^TestRegistryHistories$", quick=6000, thorough=1500000, shards=16, timeout_thorough=3000),
     ],
 )
 
@@ -328,7 +328,7 @@ PROPS["C18"] = dict(
     assumptions=["HOME and the working directory of the harness process are the home/cwd the package captured at init"],
     stages=[
         dict(name="safety", run="^TestSafety$", quick=15000, thorough=600000, shards=16, timeout_thorough=3000),
-        dict(name="callerfield", run="^TestCallerField$", quick=5000, thorough=200000, shards=16, timeout_thorough=3000),
+        dict(name="callerfield", run="^TestCallerField$", quick=5000, thorough=600000, shards=16, timeout_thorough=3000),
         dict(name="fuzz", fuzz="FuzzSafety", fuzztime=120),
     ],
 )
@@ -350,9 +350,9 @@ PROPS["C14"] = dict(
     assumptions=["runtime.Callers / CallersFrames give the true logical frames (also for inlined functions)"],
     stages=[
         dict(name="matrix", run="^TestMatrix$", quick=1, thorough=1),
-        dict(name="sampled", run="^TestSampled$", quick=10000, thorough=300000, shards=8, timeout_thorough=3000),
+        dict(name="sampled", run="^TestSampled$", quick=10000, thorough=2400000, shards=16, timeout_thorough=3000),
         dict(name="matrix-noinline", run="^TestMatrix$", tier="thorough", thorough=1, gcflags="all=-l"),
-        dict(name="sampled-noinline", run="^TestSampled$", tier="thorough", thorough=100000, shards=8, gcflags="all=-l"),
+        dict(name="sampled-noinline", run="^TestSampled$", tier="thorough", thorough=800000, shards=16, gcflags="all=-l"),
     ],
 )
 
@@ -376,8 +376,8 @@ PROPS["C15"] = dict(
     assumptions=["log/slog of the building toolchain constructs the records"],
     stages=[
         dict(name="levels", run="^TestLogLevelMapping$", quick=1, thorough=1),
-        dict(name="handler", run="^TestHandler$", quick=20000, thorough=800000, shards=16, timeout_thorough=3000),
-        dict(name="bridge", run="^TestBridge$", quick=10000, thorough=300000, shards=8, timeout_thorough=3000),
+        dict(name="handler", run="^TestHandler$", quick=20000, thorough=4000000, shards=16, timeout_thorough=3000),
+        dict(name="bridge", run="^TestBridge$", quick=10000, thorough=1600000, shards=16, timeout_thorough=3000),
     ],
 )
 
@@ -399,8 +399,8 @@ PROPS["C10"] = dict(
           " Child names may repeat names used elsewhere in the forest; attrs1 settings may hand the same Attrs value (drawn from a pool with spare capacity) to several loggers; writers are installed with Set* or with Add* on top of the inherited defaults."),
     assumptions=["gating oracle = C01 rule incl. the debug-mode side effect of SetLevel(Debug)", "record decoding = C04/C05 decoders, merge = C07 reference"],
     stages=[
-        dict(name="testing", run="^TestHierarchy$", quick=4000, thorough=150000, shards=16, timeout_thorough=3000),
-        dict(name="production", run="^TestHierarchy$", mode="prod", quick=2000, thorough=100000, shards=16, timeout_thorough=3000),
+        dict(name="testing", run="^TestHierarchy$", quick=4000, thorough=800000, shards=16, timeout_thorough=3000),
+        dict(name="production", run="^TestHierarchy$", mode="prod", quick=2000, thorough=400000, shards=16, timeout_thorough=3000),
         dict(name="stress", run="^TestAnonymousChildrenDistinct$", quick=1, thorough=1, timeout_thorough=3000),
     ],
 )
